@@ -5,10 +5,12 @@ use crate::runner::Ctx;
 
 pub mod c01;
 pub mod c02;
+pub mod c03;
 pub mod c09;
 pub mod c10;
 pub mod c10_conn;
 pub mod c18;
+pub mod smoke;
 
 pub struct Entry {
     pub id: &'static str,
@@ -19,8 +21,10 @@ pub struct Entry {
 pub const REGISTRY: &[Entry] = &[
     Entry { id: "C01", run: c01::run, replay: c01::replay },
     Entry { id: "C02", run: c02::run, replay: c02::replay },
+    Entry { id: "C03", run: c03::run, replay: c03::replay },
     Entry { id: "C09", run: c09::run, replay: c09::replay },
     Entry { id: "C10", run: c10::run, replay: c10::replay },
+    Entry { id: "SMOKE", run: smoke::run, replay: smoke::replay },
     Entry { id: "C18", run: c18::run, replay: c18::replay },
 ];
 
